@@ -121,4 +121,153 @@ def handleC01 : Toks → Option String
       | none, none => none
   | _ => none
 
+/-! ### C02 -/
+
+inductive Ev where
+  | U (fx : Float) (x gx : List Float)
+  | L (ok : Bool) (x gx : List Float) (fx : Float)
+  | D (iterOk conv : Bool) (fcalls gcalls : Nat) (x : List Float) (fx : Float) (gx : List Float)
+
+def pEv : P Ev := fun ts => do
+  let (tag, ts) ← pStr ts
+  if tag = "U" then
+    let (fx, ts) ← pFloat ts
+    let (x, ts) ← pVec ts
+    let (gx, ts) ← pVec ts
+    pure (.U fx x gx, ts)
+  else if tag = "L" then
+    let (ok, ts) ← pBool ts
+    let (x, ts) ← pVec ts
+    let (gx, ts) ← pVec ts
+    let (fx, ts) ← pFloat ts
+    pure (.L ok x gx fx, ts)
+  else if tag = "D" then
+    let (iterOk, ts) ← pBool ts
+    let (conv, ts) ← pBool ts
+    let (fc, ts) ← pNat ts
+    let (gc, ts) ← pNat ts
+    let (x, ts) ← pVec ts
+    let (fx, ts) ← pFloat ts
+    let (gx, ts) ← pVec ts
+    pure (.D iterOk conv fc gc x fx gx, ts)
+  else none
+
+/-- one `done` call of a non-monotonic solver with the candidates handed to `update_if_better` since the previous one -/
+structure Group where
+  cands : List (List Float × List Float × Float)
+  iterOk : Bool
+  conv : Bool
+  fcalls : Nat
+  gcalls : Nat
+  x : List Float
+  fx : Float
+  gx : List Float
+
+/-- groups (oldest first) and the candidates after the last `done` -/
+def groupEvents (evs : List Ev) : List Group × List (List Float × List Float × Float) :=
+  let r := evs.foldl (fun (acc : List Group × List (List Float × List Float × Float)) e =>
+    match e with
+    | .U fx x gx => (acc.1, (x, gx, fx) :: acc.2)
+    | .D iterOk conv fc gc x fx gx => (⟨acc.2.reverse, iterOk, conv, fc, gc, x, fx, gx⟩ :: acc.1, [])
+    | .L .. => acc) ([], [])
+  (r.1.reverse, r.2.reverse)
+
+def showDs (ds : List (Bool × Float)) : String :=
+  String.intercalate " " (s!"D {ds.length}" :: ds.map (fun (c, f) => s!"{showBool c} {hexOfFloat f}"))
+
+def showUs (us : List Float) : String :=
+  String.intercalate " " (s!"U {us.length}" :: us.map hexOfFloat)
+
+/-- solvers whose state only moves through `update_if_better`: the generic loop of the model, driven by the logged candidates -/
+def replayNm (eps : Float) (maxEvals patience : Nat) (vt : Bool) (c0 : State Float) (evs : List Ev) (finalF finalG : Nat) : String :=
+  let (groups, trailing) := groupEvents evs
+  let arr := groups.toArray
+  -- the function's counters at the next loop guard: exact after the last `done` (the totals counted by the wrapper); for the
+  -- earlier ones the counters at `done` are used, a lower bound under which the guard passes whenever it really passed
+  let step : Nat → Nat × Nat → BState Float → NmStep Float := fun k _ b =>
+    match arr[k]? with
+    | some g =>
+      let last := k + 1 = arr.size
+      ⟨g.cands, g.iterOk, if vt && !g.cands.isEmpty then none else some g.conv, g.fcalls, g.gcalls,
+        if last then finalF else g.fcalls, if last then finalG else g.gcalls⟩
+    | none => ⟨[], false, some false, b.st.fcalls, b.st.gcalls, b.st.fcalls, b.st.gcalls⟩
+  -- no `done` call at all: a solver-specific early return before the loop (asga2/asga4 at a stationary start)
+  let fuel := if groups.isEmpty then 0 else groups.length + 1
+  let run := nmLoop envF step patience eps maxEvals fuel 0 c0.fcalls c0.gcalls ⟨c0, []⟩
+  -- candidates handed over after the last `done` (e.g. fpba: the descent step of the last iteration before the budget ran out)
+  let tail := if run.2.length = groups.length then applyCands envF run.1 trailing else (run.1, [])
+  let us := run.2.flatMap (·.bests) ++ tail.2.reverse
+  let ds := run.2.map (fun o => (o.conv, o.b.st.fx))
+  s!"ok M {showState tail.1.st} {showUs us} {showDs ds}"
+
+/-- solvers that also move their state by `state.update(…)` (rqb, gradient sampling): the state shown to `done` is an oracle
+    answer, the model replays the `done` decisions -/
+def replayDone (c0 : State Float) (evs : List Ev) : String :=
+  let (groups, _) := groupEvents evs
+  let r := groups.foldl (fun (acc : State Float × Bool × List (Bool × Float)) g =>
+    if acc.2.1 then acc else
+      let s : State Float := ⟨g.x, g.fx, g.gx, acc.1.status, g.fcalls, g.gcalls⟩
+      let d := done envF s g.iterOk g.conv
+      (d.1, d.2, (g.conv, d.1.fx) :: acc.2.2)) (c0, false, [])
+  s!"ok M {r.1.status.toNat} - {showUs []} {showDs r.2.2.reverse}"
+
+/-- line-search solvers: the shared loop with the direction left out (C01 replays the directions) -/
+def replayLs (family : String) (eps : Float) (maxEvals : Nat) (x0 : List Float) (f0 : Float) (g0 : List Float)
+    (evs : List Ev) : Option String := do
+  let base : Rule Float Unit := gdRule
+  let rule : Rule Float Unit ←
+    if family = "gd" then some base
+    else if family = "cgd" then some { base with convInit := cgdConvergedInit, conv := cgdConverged, guard := cgdGuard, returnsCurrent := cgdReturnsCurrent }
+    else if family = "lbfgs" then some { base with convInit := lbfgsConvergedInit, conv := lbfgsConverged, guard := lbfgsGuard, returnsCurrent := lbfgsReturnsCurrent }
+    else if family = "quasi" then some { base with convInit := quasiConvergedInit, conv := quasiConverged, guard := quasiGuard, returnsCurrent := quasiReturnsCurrent }
+    else none
+  -- D0, then (L, D)*
+  let ds := evs.filterMap (fun e => match e with | .D io cv fc gc x fx gx => some (io, cv, fc, gc, x, fx, gx) | _ => none)
+  let lsv := evs.filterMap (fun e => match e with | .L ok x gx fx => some (ok, x, gx, fx) | _ => none)
+  let d0 ← ds.head?
+  guard (ds.length = lsv.length + 1)
+  let recs := (lsv.zip (ds.drop 1)).toArray
+  let c0 : State Float := ⟨x0, f0, g0, Status.initial, d0.2.2.1, d0.2.2.2.1⟩
+  let ls : Ls Float := fun k c _ =>
+    match recs[k]? with
+    | some ((_, x, gx, fx), (io, _, fc, gc, _, _, _)) => (⟨x, fx, gx, c.status, fc, gc⟩, io)
+    | none => (c, false)
+  let run := lsRun envF rule ls eps maxEvals (recs.size + 1) c0
+  let conv0 := rule.convInit (gradientTestS c0) eps
+  let convs := (run.2.zip recs.toList).map (fun (_, ((_, x, gx, fx), _)) =>
+    let c1 : State Float := ⟨x, fx, gx, Status.initial, 0, 0⟩
+    (rule.conv (gradientTestS c1) eps, fx))
+  pure s!"ok M {showState run.1} {showUs []} {showDs ((conv0, f0) :: convs)}"
+
+def handleC02 : Toks → Option String
+  | "run" :: _ :: ts => do
+    let ts := (ts.dropWhile (· ≠ "|")).drop 1
+    let (cls, ts) ← pStr ts
+    let (family, ts) ← pStr ts
+    let (eps, ts) ← pFloat ts
+    let (maxEvals, ts) ← pNat ts
+    let (patience, ts) ← pNat ts
+    let (vt, ts) ← pBool ts
+    let (ub, ts) ← pBool ts
+    let (tagI, ts) ← pStr ts
+    guard (tagI = "I")
+    let (x0, ts) ← pVec ts
+    let (f0, ts) ← pFloat ts
+    let (g0, ts) ← pVec ts
+    let (tagE, ts) ← pStr ts
+    guard (tagE = "E")
+    let (evs, ts) ← pList pEv ts
+    let (tagF, ts) ← pStr ts
+    guard (tagF = "F")
+    let (finalF, ts) ← pNat ts
+    let (finalG, ts) ← pNat ts
+    guard ts.isEmpty
+    if cls = "ls" then replayLs family eps maxEvals x0 f0 g0 evs
+    else if cls = "nm" then
+      -- `solver_state_t{function, x0}` after `clear_statistics()`: one value and one gradient evaluation
+      let c0 : State Float := ⟨x0, f0, g0, Status.initial, 1, 1⟩
+      if ub then pure (replayNm eps maxEvals patience vt c0 evs finalF finalG) else pure (replayDone c0 evs)
+    else none
+  | _ => none
+
 end NanoVerif.Driver.Solver
